@@ -14,6 +14,9 @@ use std::mem;
 use std::num::NonZeroUsize;
 use std::slice;
 use std::sync::atomic::Ordering;
+#[cfg(cfr_verif)]
+use cfr_verif_seam::sync::Mutex;
+#[cfg(not(cfr_verif))]
 use std::sync::Mutex;
 
 type ChanceIter<'a, 'b> = Zip<slice::Iter<'a, f64>, slice::Iter<'b, Node>>;
